@@ -3,6 +3,7 @@
 Spec StringSpace.tla (reference layer + implementation-shaped layer); models StringSpace_MC*.cfg; trace spec
 StringSpace_Trace (judges with the reference layer only)."""
 import json, re
+import os
 from ..session import Sess
 from .. import graph, core
 
@@ -183,7 +184,7 @@ class Drv(object):
         self.last = [[] for _ in self.cells]
         return self.observe({'op': 'begin', 'kind': 'ok', 'code': 0, 'stmt': 'begin CLEAR ,%s' % n})
 
-    def do(self, a):
+    def do(self, a, text=None):
         e = dict(a)
         if a['op'] in ('fre', 'fre0'):
             e['stmt'] = 'FRE("")' if a['op'] == 'fre' else 'FRE(0)'
@@ -191,7 +192,7 @@ class Drv(object):
             if r[0] == 'ok':
                 e['fre'] = int(r[1])
         else:
-            e['stmt'] = stmt_text(a)
+            e['stmt'] = text or stmt_text(a)
             r = self.s.ex(e['stmt'])
         e['kind'] = 'ok' if r[0] == 'ok' else 'err' if r[0] == 'err' else 'internal'
         e['code'] = r[1] if r[0] == 'err' else 0
@@ -200,7 +201,7 @@ class Drv(object):
         return self.observe(e)
 
 
-KEEP = ('op', 'c', 'd', 'e', 's', 'n', 'arr', 'kind', 'code', 'chg', 'ae', 'mem', 'fre')
+KEEP = ('op', 'c', 'd', 'e', 's', 'n', 'arr', 'prog', 'kind', 'code', 'chg', 'ae', 'mem', 'fre')
 
 
 def validate(ctx, drv, what, extra_key=None):
@@ -345,7 +346,7 @@ def spec_to_code(ctx):
     inits = {t['from'] for t in trans if t['d'] == 0}
     if len(inits) != 1:
         raise core.MachineryError('emit: %d initial states' % len(inits))
-    walks, cov, total = graph.covering_walks(trans, inits.pop(), max_len=8, rng=ctx.rng, limit=ctx.pick(2500, None))
+    walks, cov, total = graph.covering_walks(trans, inits.pop(), max_len=8, rng=ctx.rng, limit=ctx.pick(1500, None))
     ctx.cov['model_transitions'] = total
     ctx.cov['model_transitions_replayed'] = cov
     if not ctx.quick() and cov < total:
@@ -504,7 +505,7 @@ def code_to_spec(ctx):
     for a in ARRS:
         d.s.ex('DIM %s(%s)' % (a[0], a[1]))
     ae_setup = int(d.s.ev(AE)[1])
-    nhist = ctx.pick(70, 1500)
+    nhist = ctx.pick(70, 500)
     ops = 0
     plan = []
     for h in range(nhist):
@@ -564,9 +565,7 @@ def code_to_spec(ctx):
     ctx.cov['traces_validated_against_impl'] += ns
 
 
-def run(ctx):
-    ctx.cov['rule'] = ('events = BASIC statements executed on a real Session (replayed model transitions/behaviours and random '
-                       'histories); distinct by (op, expression, target, outcome, number of changed cells); begin/RUN not counted')
+def model_phases(ctx):
     # 1. design check: implementation-shaped layer against the reference layer, exhaustively on the bounded model
     r = ctx.tlc('StringSpace_MC', ctx.pick('StringSpace_MC.cfg', 'StringSpace_MC_big.cfg'), workers=ctx.pick(4, 8), tag='model_check')
     ctx.cov['states'] += r['distinct']
@@ -582,6 +581,106 @@ def run(ctx):
         raise core.MachineryError('selftest: the as-coded model does not exhibit the reproduced defects (%s)' % r['error'])
     ctx.cov['ascoded_counterexample'] = r['error']
     # 3. spec -> code
+
+
+# ---------------------------------------------------------------------------------------------------------------------
+# code -> spec, program mode: the history is a stored program (string literals live in the program text); line k is
+# executed with a direct-mode GOTO, so that the variables can be observed after every statement
+class ProgGen(Gen):
+    def __init__(self, rng, drv, roomy):
+        Gen.__init__(self, rng, drv, roomy)
+        for k in self.exists:
+            self.exists[k] = True
+
+    def val(self, c):
+        return [0] * self.rng.choice([0, 1, 3, 6, 12])      # the program is written before it runs: lengths are guesses
+
+    def expr(self, depth, target=None):
+        e = Gen.expr(self, depth, target)
+        # an identity function called with a literal would return a pointer into the program text (not modelled)
+        return cat(e, self.literal()) if has_fn(e, 'FNI$') else e
+
+
+def has_fn(e, f):
+    if not isinstance(e, dict):
+        return False
+    if e.get('k') == 'fn' and e['f'] == f:
+        return True
+    return any(has_fn(e.get(x), f) for x in ('l', 'r', 'e')) or any(has_fn(x, f) for x in e.get('args', []))
+
+
+def program_histories(ctx):
+    rng = ctx.rng
+    d = Drv(ctx, SCAL, ARRS, FNPROG)
+    nprog = ctx.pick(10, 120)
+    ngoto = 0
+    for h in range(nprog):
+        r = rng.random()
+        free0 = rng.choice([60, 100, 200, 400]) if r < 0.5 else rng.choice([1000, 4000]) if r < 0.8 else None
+        g = ProgGen(rng, d, roomy=free0 is None or free0 >= 1000)
+        acts = []
+        for _ in range(rng.randint(30, ctx.pick(90, 150))):
+            a = g.action()
+            if a['op'] in ('let', 'midset', 'lset', 'rset', 'swap'):
+                acts.append(a)
+            elif a['op'] in ('fre', 'fre0') or (a['op'] in ('erase', 'dim') and a['arr'] == 'R$'):
+                # (S$ stays dimensioned: the program is written in advance, and using an element of an erased
+                #  2-dimensional array would auto-dimension it with 376 bytes)
+                acts.append(a)
+        d.poisoned = True                    # a new program: always a fresh Session
+        d.new_session()
+        d.s.ex('50 END')
+        line = {}
+        for i, a in enumerate(acts):
+            if a['op'] in ('fre', 'fre0'):
+                continue
+            line[i] = 100 + i
+            r_ = d.s.ex('%d %s:END' % (line[i], stmt_text(a)))
+            if r_[0] != 'ok':
+                raise core.MachineryError('cannot store program line %r: %r' % (stmt_text(a), r_[:2]))
+        n = None
+        if free0:
+            d.s.ex('RUN')
+            for a in ARRS:
+                d.s.ex('DIM %s(%s)' % (a[0], a[1]))
+            n = int(d.s.ev(AE)[1]) + 7 * len(SCAL) + free0 + 514
+        d.poisoned = False
+        d.begin(n)                           # CLEAR [,n] and RUN (defines the functions, stops at line 50)
+        d.do({'op': 'fre'})
+        dims_ok = [d.do({'op': 'dim', 'arr': a[0], 'dims': a[1]})['kind'] == 'ok' for a in ARRS]
+        if not all(dims_ok):
+            continue
+        for i, a in enumerate(acts):
+            if i in line:
+                b = dict(a)
+                b['prog'] = True
+                e = d.do(b, text='GOTO %d' % line[i])
+                e['stmt'] = '%d %s' % (line[i], stmt_text(a))
+                ngoto += 1
+            else:
+                e = d.do(a)
+            if e['kind'] == 'internal':
+                break
+    d.close()
+    evs = d.events
+    ctx.cov['program_histories'] = nprog
+    ctx.cov['program_lines_executed'] = ngoto
+    ctx.cov['program_out_of_string_space'] = sum(1 for e in evs if e['code'] == 14)
+    ctx.cov['program_fre_checks'] = sum(1 for e in evs if e['op'] == 'fre' and e['kind'] == 'ok')
+    lits = sum(1 for e in evs if e.get('prog') and e['op'] == 'let' and e['e']['k'] == 'lit' and e['kind'] == 'ok')
+    ctx.cov['program_literal_assignments'] = lits
+    if not lits or not ctx.cov['program_fre_checks']:
+        raise core.MachineryError('vacuous program histories')
+    ns = validate(ctx, d, 'program')
+    ctx.cov['traces_validated_against_impl'] += ns
+
+
+def run(ctx):
+    ctx.cov['rule'] = ('events = BASIC statements executed on a real Session (replayed model transitions/behaviours and random '
+                       'histories); distinct by (op, expression, target, outcome, number of changed cells); begin/RUN not counted')
+    if not os.environ.get('VERIF_SKIP_MODEL'):      # developer aid (mutant runs): the pure-model phases do not depend on the code
+        model_phases(ctx)
     spec_to_code(ctx)
     # 4. code -> spec
     code_to_spec(ctx)
+    program_histories(ctx)
